@@ -57,9 +57,42 @@ def models(tier):
     return out
 
 
+# ------------------------------------------------------------------ E4: one request answered from two threads / while its connection goes
+SCHED_VARIANTS = ("double", "eof", "dpr")
+
+
+def sched_execute(variant, prefix):
+    """The scenario of C09's schedule exploration (an application thread submits its answer while a second thread submits
+    the same answer / the requester's connection is lost / sends a DPR), judged by the answer monitor: whatever the
+    interleaving, every answer written answers exactly one pending request of that socket."""
+    from . import c09
+    (obs, vs), ch = c09.sched_execute(variant, prefix)
+    keep = tuple((k, d) for k, d in vs if k.startswith("answer:") or k.endswith("application-answer-transmitted-twice"))
+    return ((obs[0], obs[2], tuple(sorted(set(k for k, d in keep)))), keep), ch
+
+
+def sched_check(obs_vs):
+    obs, vs = obs_vs
+    return [(k + ":under-some-schedule", d) for k, d in vs]
+
+
 def run(tier):
     rep = Report("C07", tier, "model_checking")
     common.pool()
+    import functools
+    from .. import scheddfs
+    from ..common import Violation
+    bound = 2 if tier == "thorough" else 1
+    sched = 0
+    tasks = [(functools.partial(sched_execute, v), sched_check, bound) for v in SCHED_VARIANTS]
+    for v, r in zip(SCHED_VARIANTS, scheddfs.explore_many(tasks)):
+        sched += r["executions"]
+        for (key, detail), choices in r["violations"]:
+            rep.add(Violation(key, f"[answer submitted from an application thread, variant {v}, bound {bound}] choices {choices}: {detail}",
+                              {"sched": v, "choices": choices}))
+        rep.sample({"schedule_exploration": f"application thread(s) in send_answer, variant {v}, line granularity in route_answer/send_message/close path",
+                    "preemption_bound": bound, "executions": r["executions"], "distinct_outcomes": len(r["outcomes"]), "branching_points": r["max_points"]})
+    rep.cov["schedules"] = sched
     depth = 6 if tier == "thorough" else 4
     tot = monitors.run_models(rep, models(tier), depth, dedup_depth_plain=(depth - 2), time_cap=900 if tier == "thorough" else 100)
     rep.cov.update({"states": tot["states"], "transitions": tot["transitions"], "traces_validated_against_impl": tot["transitions"] + tot["plain_transitions"],
@@ -73,6 +106,11 @@ def run(tier):
 
 def replay(case):
     from ..common import Violation
+    if "sched" in case:
+        import functools
+        from .. import scheddfs
+        obs_vs, ch = scheddfs.replay_choices(functools.partial(sched_execute, case["sched"]), case["choices"])
+        return [Violation(k, d) for k, d in sched_check(obs_vs)]
     hist = tuple(tuple(e) for e in case["history"])
     for m in models("thorough"):
         if m.name == case["model"]:
